@@ -19,7 +19,7 @@ static uint64_t g_seq = 0;
 // value classes
 //  input : none plain wenc tampered missing longplain longwenc
 //  output: none ok baddir long
-//  key   : none right wrong len23 len25 eq0 eq1 badalpha empty long
+//  key   : none right wrong len23 len25 eq0 eq1 badalpha empty long stray long280
 //  cmode / hmode : none or a number (as text)
 static Verdict run_c17(const Case &c)
 {
@@ -172,6 +172,16 @@ static Verdict run_c17(const Case &c)
     key_s = right.substr(0, 22) + "AA";
   else if (key_k == "eq1")
     key_s = right.substr(0, 22) + "A=";
+  else if (key_k == "stray")
+  {
+    // 1-3 alphabet characters too many in front of the padding: 25-27 characters, still ending in "=="
+    key_s = right.substr(0, 22);
+    for (uint64_t n = 1 + order % 3, i = 0; i < n; i++)
+      key_s.insert((size_t)((order >> (8 * i + 3)) % 23), 1, "AQgw059+/"[(order >> (4 * i)) % 9]);
+    key_s += "==";
+  }
+  else if (key_k == "long280")
+    key_s = right + std::string(256 * (1 + order % 3), 'A'); // 24 + 256k characters starting with a valid key
   else if (key_k == "badalpha")
   {
     key_s = right;
@@ -513,7 +523,7 @@ static Case gen_c17()
     else
       kk = k < 10 ? "none" : k < 55 ? "right" : k < 70 ? "wrong" : "";
     if (kk.empty())
-      kk = g::oneof<const char *>({"len23", "len25", "eq0", "eq1", "badalpha", "empty", "long"});
+      kk = g::oneof<const char *>({"len23", "len25", "eq0", "eq1", "badalpha", "empty", "long", "stray", "stray", "long280"});
     if (info_mode && kk != "none" && kk != "right" && kk != "wrong")
       kk = "none";
     c.set("key", kk);
@@ -597,7 +607,7 @@ static void fixed_c17(Ctx &ctx)
   mk({{"modes", "v"}, {"input", "wenc"}, {"key", "none"}});
   mk({{"modes", "v"}, {"input", "wenc"}, {"key", "wrong"}});
   mk({{"modes", "v"}, {"input", "tampered"}, {"key", "right"}});
-  for (const char *k : {"len23", "len25", "eq0", "eq1", "badalpha", "empty", "long"})
+  for (const char *k : {"len23", "len25", "eq0", "eq1", "badalpha", "empty", "long", "stray", "long280"})
     mk({{"modes", "v"}, {"input", "wenc"}, {"key", k}});
   for (const char *cmv : {"5", "99", "-2", "256", "-1", "128", "255", "260", "4294967296", "4294967297", "-4294967295", "2147483648", "9223372036854775808", "18446744073709551617", "99999999999999999999999999999999999999999"})
     mk({{"cmode", cmv}});
